@@ -124,7 +124,7 @@ def main(argv=None):
     # thorough tier: a wall-time budget for the whole tier.  Jobs not started when it runs out are NOT run and are
     # listed as such in the evidence (the verdict is about what was explored); the quick tier's jobs go first, so
     # the thorough tier always contains the quick one.  A job that was started is never cut short by this budget.
-    tier_budget = float(os.environ.get("VERIF_TIER_BUDGET", "600" if tier == "thorough" else "0") or 0)
+    tier_budget = float(os.environ.get("VERIF_TIER_BUDGET", "480" if tier == "thorough" else "0") or 0)
     deadline = (t0 + tier_budget) if tier_budget > 0 else None
     specs = [(prop.lower(), fn, kw, tier, seed, deadline) for fn, kw in jobs]
     # heavier jobs first
